@@ -266,7 +266,8 @@ def Outcome.createErr : Outcome → Err
 
 /-- one recorded I/O call (what the harness-side `WalStore` logs) -/
 inductive Call where
-  | create (seq : Nat) (ok : Bool)
+  | create (seq : Nat) (ok : Bool) (existed : Bool)   -- `existed`: a file of that name was there (and is truncated by a successful create)
+  | crash                                             -- pseudo-call: the machine crashed here (every file cut to its synced length)
   | append (seq : Nat) (len : Nat) (o : Outcome)
   | sync (seq : Nat) (ok : Bool)
   | delete (seq : Nat) (ok : Bool)
@@ -292,8 +293,8 @@ def World.push (w : World) (st : Store) (c : Call) : World :=
 /-- `WalStore::create` (truncates/creates the file) -/
 def ioCreate (φ : Nat → Outcome) (w : World) (seq : Nat) : World × Option Err :=
   match φ w.io with
-  | .ok => (w.push (NMap.insert seq ⟨[], 0⟩ w.store) (.create seq true), none)
-  | o => (w.push w.store (.create seq false), some o.createErr)
+  | .ok => (w.push (NMap.insert seq ⟨[], 0⟩ w.store) (.create seq true (NMap.get w.store seq).isSome), none)
+  | o => (w.push w.store (.create seq false (NMap.get w.store seq).isSome), some o.createErr)
 
 def appendData (st : Store) (seq : Nat) (bs : Bytes) : Store :=
   match NMap.get st seq with
@@ -425,6 +426,23 @@ def Rot.truncate (fmt : Format) (crc : Bytes → Nat) (φ : Nat → Outcome) (T 
     | some f => deletable fmt crc T f.data
     | none => false)
   { r with w := truncLoop φ victims r.w }
+
+/-- what is left of the store after a machine crash: every file cut to its synced length
+    (and that much is, of course, on disk) -/
+def crashStore (st : Store) : Store :=
+  st.map (fun p => (p.1, (⟨p.2.data.take p.2.synced, (p.2.data.take p.2.synced).length⟩ : File)))
+
+/-- highest sequence number among the files of the store (`0` if there is none) -/
+def maxKey (st : Store) : Nat := st.foldr (fun p m => Nat.max p.1 m) 0
+
+/-- a NEW rotator over an existing store (`WalRotator::new` after a restart):
+    `current_sequence` = the highest sequence found in the listing, no current writer, so the
+    first `rotate()` creates `max + 1`.  `reuse = true` is the variant in which the first rotate
+    re-creates the name of the highest-numbered EXISTING file (the counter is treated as "next
+    sequence to use" by `rotate` but still initialised to the highest one found). -/
+def Rot.reopen (reuse : Bool) (r : Rot) : Rot :=
+  { r with cur := none, poisoned := false,
+           seq := if reuse then maxKey r.w.store - 1 else maxKey r.w.store }
 
 /-- `WalRotator::sync` -/
 def Rot.sync (fix : Bool) (φ : Nat → Outcome) (r : Rot) : Rot × Bool :=
